@@ -99,7 +99,11 @@ pub fn label_pool(rng: &mut Rng, n: usize) -> Vec<Vec<u8>> {
     ];
     while pool.len() < 24 {
         let len = rng.range(1, 40) as usize;
-        pool.push(rng.bytes(len));
+        let cand = rng.bytes(len);
+        // labels of a universe are pairwise distinct (a repeated label inside one batch is generated on purpose elsewhere)
+        if !pool.contains(&cand) {
+            pool.push(cand);
+        }
     }
     rng.shuffle(&mut pool);
     pool.truncate(n.max(1));
